@@ -125,6 +125,9 @@ class igmp (packet_base):
       s += self.extra
 
       for _ in range(num):
+        if len(self.extra) < 8:
+          self.msg('IGMP group record truncated')
+          return None
         off,gr = GroupRecord.unpack_new(self.extra)
         self.extra = self.extra[off:]
         self.group_records.append(gr)
